@@ -94,8 +94,12 @@ def pair(ctx, case):
             ctx.violation(case, {"why": "a refused create_db changed the existing database", "diff": d})
             return
         if case["force"]:
-            db = gffutils.create_db(new_text, dbfn, from_string=True, force=True)
-            db.conn.close()
+            try:
+                db = gffutils.create_db(new_text, dbfn, from_string=True, force=True)
+                db.conn.close()
+            except Exception as ex:
+                ctx.violation(case, {"why": "create_db(force=True) on an existing database raised %r" % (ex,)})
+                return
             gffutils.create_db(new_text, solo, from_string=True).conn.close()
             ctx.mon("force imports compared with solitary import")
             d = dbdump.diff(dbdump.dump(solo), dbdump.dump(dbfn))
